@@ -569,3 +569,6 @@ type (
 	PkgName = types.PkgName
 	MapType = types.Map
 )
+
+// TFunc re-exports types.Func.
+type TFunc = types.Func
